@@ -51,13 +51,14 @@ LAST_RESULTS = {}      # path -> the results dictionary handed to the writer (in
 
 def store_model_runs(ck):
     """TraceStore.tla: the re-written run output with kills, interrupts, companion files and long-lived readers."""
-    base = {"MainLen": 5, "CompLen": 0, "RecordEvery": 2, "TmpAndRename": "FALSE", "EndRecordOnError": "FALSE", "LenientCompanion": "FALSE", "ReaderMemo": "FALSE"}
+    base = {"MainLen": 5, "CompLen": 0, "RecordEvery": 2, "TmpAndRename": "FALSE", "EndRecordOnError": "FALSE", "LenientCompanion": "FALSE", "ReaderMemo": "FALSE", "NoTruncate": "FALSE"}
     cases = [("TraceStore as implemented (one all-or-nothing file, truncated on open, read afresh every time)", {}, None),
              ("TraceStore with a companion file that is itself all-or-nothing", {"CompLen": 4}, None),
              ("DEV a reader process answers from memory for a path it has read before", {"ReaderMemo": "TRUE"}, "NeverStale"),
              ("DEV the writer emits a well-formed end record while unwinding from an exception", {"EndRecordOnError": "TRUE"}, "NeverPartial"),
              ("DEV a line-oriented companion file accepted at any record boundary", {"CompLen": 4, "LenientCompanion": "TRUE"}, "NeverPartial"),
-             ("DEV temporary file + rename with checkpoints of the part written so far", {"TmpAndRename": "TRUE"}, "NeverPartial")]
+             ("DEV temporary file + rename with checkpoints of the part written so far", {"TmpAndRename": "TRUE"}, "NeverPartial"),
+             ("DEV the file is opened without truncation and overwritten in place", {"NoTruncate": "TRUE"}, "NeverStale")]
     jobs = [dict(job="c20_store_%d" % i, module="TraceStore", workers=2, timeout=600,
                  cfg=tlc.cfg_text(constants=dict(base, **over), spec="Spec", invariants=["NeverPartial", "NeverStale", "CompleteReadsNew"], check_deadlock=False))
             for i, (_, over, _) in enumerate(cases)]
@@ -233,7 +234,7 @@ def real_crash(ck, workdir, seed):
     results_new = LAST_RESULTS[ref_new]
     size_new = os.path.getsize(ref_new)
     full_new = run_commands(ref_new, env.scratch(os.path.join("c20_out", "crash_full")))
-    limits = sorted({64, 700, size_new // 3, size_new // 2, size_new - 40, size_new - 3})
+    limits = sorted({0, 1, 6, 12, 64, 700, size_new // 3, size_new // 2, size_new - 40, size_new - 3})       # incl. a kill before anything was flushed
     for L in limits:
         make_trace(path, 2, 1, 2, seed + 6)            # the older, complete run
         run_commands(path, d)                          # ... which this (long-lived) process has already summarised once
